@@ -726,7 +726,8 @@ def clip(a, a_min=None, a_max=None, out=None, out_like=None, sizing='optimal', m
         raw = np.asarray(x.val)
         clipped = np.minimum(np.maximum(raw.astype(object), val_min), val_max)
         if raw.dtype != object and all(isinstance(v, (int, np.integer)) for v in np.asarray(clipped, dtype=object).flatten()):
-            clipped = np.asarray(clipped, dtype=object).astype(raw.dtype if raw.dtype.kind in 'iu' else np.int64)
+            _neg = any(v < 0 for v in np.asarray(clipped, dtype=object).flatten())
+            clipped = np.asarray(clipped, dtype=object).astype(raw.dtype if raw.dtype.kind in 'iu' and not (raw.dtype.kind == 'u' and _neg) else np.int64)
         return utils.scale_raw(clipped, n_frac - x.n_frac)
 
     # (numpy 2.1 and later spell the bounds `min` and `max` as well)
